@@ -18,6 +18,11 @@ func verifBigDoc() (string, byte, byte, []byte) {
 	doc := []byte{'{', '"', 'x', a, '"', ':', vals[0]}
 	const hex = "123456789abcdef"
 	for i := 0; i < 15; i++ {
+		if i == 7 {
+			// member 8 is written with an escape sequence: "\/8" spells the key "/8"
+			doc = append(doc, ',', '"', '\\', '/', '8', '"', ':', '7')
+			continue
+		}
 		doc = append(doc, ',', '"', 'k', hex[i], '"', ':', '7')
 	}
 	doc = append(doc, ',', '"', 'x', b, '"', ':', vals[1], '}')
@@ -61,8 +66,13 @@ func VerifC14BigObjectGet() {
 		v.Cover("lazy")
 	}
 	// a fixed key in the middle is found in every representation
-	m := root.Get("k8")
+	m := root.Get("k9")
 	v.Assert(m.Exists(), "a plain key of a 17-member object is not found")
+	// the member whose key is spelled with an escape sequence is addressed by its unescaped name
+	e := root.Get("/8")
+	v.Assert(e.Exists(), "a key written with an escape sequence is not found by its unescaped name")
+	e2 := root.Get("/8") // and again, now that earlier lookups may have loaded/indexed the object
+	v.Assert(e2.Exists(), "a key written with an escape sequence is not found on the second lookup")
 	if a == b {
 		v.Cover("duplicate")
 	}
